@@ -31,8 +31,9 @@ ASSUMPTIONS = [
   "A-SPEC: specs/smpte.py is my reading of SMPTE ST 12-1 (drop-frame counting exists for 30000/1001 and 60000/1001 only)",
   "magnitude: frame counts and hours are bounded by 2^40 (about 1170 years at 30 fps) so that float operations are exact; "
   "the property asks for 24 h",
-  "print/parse clause (str <-> parse) and float arguments of ClockTime.from_seconds (CPython round(float, 3)) are NOT proved: "
-  "bounded tier only",
+  "print/parse: both halves are proved (parse under A-RE: regex groups are symbolic digit strings; print as a sequence of format "
+  "tokens); their composition uses A-FMT (format(i,'02') / '03' spell i in decimal), enumerated natively by the bounded tier",
+  "float arguments of ClockTime.from_seconds (CPython round(float, 3)) are NOT proved: bounded tier only",
 ]
 
 
@@ -207,8 +208,87 @@ def clock_harnesses():
   return hs
 
 
-def all_harnesses(tier):
+def parse_print_harnesses():
+  """P8: print and parse.  parse(): the real SmpteTimeCode.parse / ClockTime.parse with the `re` module of time_code.py stubbed
+  (A-RE: symbolic digit groups; which of the two SMPTE patterns matches the subject is part of the case).  print: the real
+  __str__ with symbolic fields; the result is a sequence of format tokens ({field:02}) and literal separators.  With A-FMT
+  (format(i, '02') is the two-digit decimal of i for 0 <= i < 100, '03' likewise for 0 <= i < 1000; enumerated natively by the
+  bounded tier) the two halves compose to parse(str(tc)) == tc for hours below 100."""
+  from pyvc import restub
   hs = []
+  NDF, DF = T.SmpteTimeCode.SMPTE_TIME_CODE_NDF_PATTERN, T.SmpteTimeCode.SMPTE_TIME_CODE_DF_PATTERN
+  PH = "@@TC@@"
+
+  def smpte_parse(kind, rate_name):
+    rate = smpte.RATES[rate_name]
+
+    def run(ctx):
+      import re as real_re
+      pat = NDF if kind == "ndf" else DF
+      groups, info = restub.symbolic_groups(real_re.compile(pat))
+      table = {NDF: {PH: groups if kind == "ndf" else None}, DF: {PH: groups if kind == "df" else None}}
+      saved = T.__dict__["re"]
+      T.__dict__["re"] = restub.StubReModule(table)
+      try:
+        st, tc = core.call_real(T.SmpteTimeCode.parse, PH, rate, allowed=())
+      finally:
+        T.__dict__["re"] = saved
+      pre = "ndf_" if kind == "ndf" else "df_"
+      prove((tc.get_hours() == groups[pre + "h"].value) & (tc.get_minutes() == groups[pre + "m"].value) &
+            (tc.get_seconds() == groups[pre + "s"].value) & (tc.get_frames() == groups[pre + "f"].value), "P8-parse-fields==printed-digits")
+      if kind == "ndf":
+        prove(tc.get_frame_rate() == rate, "P8-colon-separated-keeps-the-base-rate")
+      else:
+        want = rate if rate.denominator == 1001 else rate * Fraction(1000, 1001)
+        prove(tc.get_frame_rate() == want, "P8-drop-frame-syntax-selects-the-1000/1001-rate")
+      prove(all(v == (2, 2) for v in info.values()), "P8-two-digit-fields", note=str(info))
+    return Harness(f"SmpteTimeCode.parse[{kind}]@{rate_name}", run, [M + "SmpteTimeCode.parse"], None, {},
+                   "parsing a printed SMPTE time code returns its fields; `:` keeps the rate, other separators select the 1000/1001 rate")
+
+  for rn in ("30", "25", "30000/1001", "24000/1001"):
+    hs.append(smpte_parse("ndf", rn))
+    hs.append(smpte_parse("df", rn))
+
+  def smpte_print(rate_name):
+    rate = smpte.RATES[rate_name]
+
+    def run(ctx):
+      h, m, s, f = _sym_label(rate, hmax=100)
+      text = str(T.SmpteTimeCode(h, m, s, f, rate))
+      lits, toks = core.tokens_in(text)
+      sep = ";" if smpte.drop(rate) else ":"
+      prove(lits == ["", ":", ":", sep, ""], "P8-print-separators", note=repr(lits))
+      prove(len(toks) == 4 and all(t[1] in ("02", "02d") for t in toks), "P8-print-two-digit-fields", note=str([t[1] for t in toks]))
+      prove((toks[0][0] == h) & (toks[1][0] == m) & (toks[2][0] == s) & (toks[3][0] == f), "P8-print-fields-in-order")
+    return Harness(f"SmpteTimeCode.__str__@{rate_name}", run, [M + "SmpteTimeCode.__str__"], None, {},
+                   "a time code prints hh:mm:ss:ff (;ff for drop-frame rates) with two-digit fields")
+
+  for rn in smpte.RATES:
+    hs.append(smpte_print(rn))
+
+  def clock_parse_print(ctx):
+    import re as real_re
+    groups, info = restub.symbolic_groups(real_re.compile(T.ClockTime.TIME_CODE_PATTERN))
+    saved = T.__dict__["re"]
+    T.__dict__["re"] = restub.StubReModule({T.ClockTime.TIME_CODE_PATTERN: {PH: groups}})
+    try:
+      st, c = core.call_real(T.ClockTime.parse, PH, allowed=())
+    finally:
+      T.__dict__["re"] = saved
+    prove((c.get_hours() == groups["h"].value) & (c.get_minutes() == groups["m"].value) & (c.get_seconds() == groups["s"].value) &
+          (c.get_milliseconds() == groups["ms"].value), "P8-clock-parse-fields==printed-digits")
+    text = str(c)
+    lits, toks = core.tokens_in(text)
+    prove(lits == ["", ":", ":", ".", ""] and [t[1] for t in toks] == ["02d", "02d", "02d", "03"], "P8-clock-print-shape", note=repr((lits, [t[1] for t in toks])))
+    prove((toks[0][0] == c.get_hours()) & (toks[3][0] == c.get_milliseconds()), "P8-clock-print-fields")
+
+  hs.append(Harness("ClockTime.parse+__str__", clock_parse_print, [M + "ClockTime.parse", M + "ClockTime.__str__"], None, {},
+                    "clock times parse to their printed fields and print hh:mm:ss.mmm"))
+  return hs
+
+
+def all_harnesses(tier):
+  hs = parse_print_harnesses()
   for name, rate in smpte.RATES.items():
     hs += harnesses_for(name, rate)
   hs += clock_harnesses()
